@@ -312,7 +312,8 @@ func firstDiff(a, b []byte) int {
 
 // C05Case is either a library history or a failing CLI write (the property's last clause).
 type C05Case struct {
-	Kind string    `json:"kind"` // history | cli | partial
+	Kind string    `json:"kind"` // history | cli | partial | oddfile
+	O    *C05Odd   `json:"oddfile,omitempty"`
 	H    *HistCase `json:"history,omitempty"`
 	// UnwritableTail (history): after the history the file is made read-only and opened by an unprivileged
 	// user; if that Open succeeds, one more write + Sync follows (see runC05History)
@@ -447,7 +448,84 @@ type C05CLI struct {
 	CopyNaN    bool   `json:"copy_nan"`
 }
 
+// C05Odd: an EXISTING file that is valid but not exactly what Create would have written - bytes after the last
+// archive (a file extended by another tool), a max-retention field that disagrees with the archive list - is
+// opened, read, possibly updated and Synced: its length and header bytes never change, and nothing at all
+// changes without an update.
+type C05Odd struct {
+	L        Layout      `json:"layout"`
+	Now      int64       `json:"now"`
+	Pre      []SlotWrite `json:"pre"`
+	Trailing int         `json:"trailing,omitempty"`      // bytes appended after the last archive
+	MaxRet   int64       `json:"max_ret_delta,omitempty"` // added to the header's max-retention field
+	Updates  []SlotWrite `json:"updates,omitempty"`
+	Sync     bool        `json:"sync"`
+}
+
+func runC05Odd(c C05Odd, ev *Evid) (fs []Finding) {
+	add := func(key, format string, args ...interface{}) {
+		fs = append(fs, Finding{Property: "C05", Key: key, Detail: fmt.Sprintf("existing file (%s, %d trailing bytes, max-retention field %+d): ", c.L, c.Trailing, c.MaxRet) + fmt.Sprintf(format, args...)})
+	}
+	dir := scratchDir()
+	defer os.RemoveAll(dir)
+	path := filepath.Join(dir, "f.wsp")
+	if err := buildFile(path, FileSpec{L: c.L, Writes: c.Pre}, c.Now); err != nil {
+		add("setup", "%v", err)
+		return
+	}
+	b, _ := os.ReadFile(path)
+	if c.MaxRet != 0 {
+		binary.BigEndian.PutUint32(b[4:], uint32(int64(binary.BigEndian.Uint32(b[4:]))+c.MaxRet))
+	}
+	for i := 0; i < c.Trailing; i++ {
+		b = append(b, byte(0xE0+i%16))
+	}
+	os.WriteFile(path, b, 0644)
+	before := b
+	hdrLen := 16 + 12*len(c.L.Archives)
+	db, err := openWT(path)
+	if err != nil {
+		ev.Count(HashJSON(c), false, "kind=oddfile", "open-refused")
+		return nil
+	}
+	for a := range c.L.Archives {
+		fetchWT(db, a, 0, c.Now, c.Now)
+	}
+	if cur, _ := os.ReadFile(path); !bytes.Equal(cur, before) {
+		db.Close()
+		add("bytes-changed-outside-sync", "opening and reading the file changed it on disk (length %d -> %d, first difference at offset %d); only Sync may write", len(before), len(cur), firstDiff(cur, before))
+		return
+	}
+	wrote := 0
+	for _, u := range c.Updates {
+		if e, pm := updateWT(db, u.Arch, u.T, float64(u.V), c.Now); e == nil && pm == "" {
+			wrote++
+		}
+	}
+	if c.Sync {
+		db.Sync()
+	}
+	db.Close()
+	after, _ := os.ReadFile(path)
+	switch {
+	case len(after) != len(before):
+		add("length-changed", "the file's length changed from %d to %d (updates applied: %d, Sync: %v)", len(before), len(after), wrote, c.Sync)
+	case !bytes.Equal(after[:hdrLen], before[:hdrLen]):
+		add("header-changed", "the header bytes changed: %x -> %x (updates applied: %d, Sync: %v)", before[:hdrLen], after[:hdrLen], wrote, c.Sync)
+	case (wrote == 0 || !c.Sync) && !bytes.Equal(after, before):
+		add("bytes-changed-outside-sync", "the file changed although nothing was written and synced (updates applied: %d, Sync: %v; first difference at offset %d)", wrote, c.Sync, firstDiff(after, before))
+	}
+	if len(fs) > 0 {
+		return
+	}
+	ev.Count(HashJSON(c), true, "kind=oddfile", fmt.Sprintf("trailing=%v", c.Trailing > 0), fmt.Sprintf("max-ret-field-off=%v", c.MaxRet != 0))
+	return nil
+}
+
 func runC05(c C05Case, ev *Evid) []Finding {
+	if c.Kind == "oddfile" {
+		return runC05Odd(*c.O, ev)
+	}
 	if c.Kind == "cli" {
 		return runC05CLI(*c.CLI, ev)
 	}
@@ -701,6 +779,26 @@ func TestC05(t *testing.T) {
 					p.Updates = append(p.Updates, SlotWrite{Arch: a, T: now - rapid.Int64Range(0, l.Archives[a].Ret()-1).Draw(t, "updAge"), V: F64(genValue(t))})
 				}
 				return C05Case{Kind: "partial", P: &p}
+			}
+			if rapid.IntRange(0, 11).Draw(t, "oddFile") == 0 {
+				lo := defaultLayoutOpts()
+				l := genLayout(t, lo)
+				now := genNow(t, l)
+				od := C05Odd{L: l, Now: now, Pre: genWrites(t, l, now, valGeneral, 0), Sync: rapid.IntRange(0, 3).Draw(t, "oddSync") > 0}
+				switch rapid.IntRange(0, 2).Draw(t, "oddKind") {
+				case 0:
+					od.Trailing = rapid.SampledFrom([]int{1, 11, 12, 100, 4096, 5000}).Draw(t, "trailing")
+				case 1:
+					od.MaxRet = rapid.SampledFrom([]int64{1, -1, 60, l.MaxRet()}).Draw(t, "maxRetDelta")
+				default:
+					od.Trailing = rapid.IntRange(1, 300).Draw(t, "trailing2")
+					od.MaxRet = rapid.SampledFrom([]int64{1, -1, 3600}).Draw(t, "maxRetDelta2")
+				}
+				for n := rapid.IntRange(0, 3).Draw(t, "oddUpdates"); n > 0; n-- {
+					a := rapid.IntRange(0, len(l.Archives)-1).Draw(t, "oddArch")
+					od.Updates = append(od.Updates, SlotWrite{Arch: a, T: now - rapid.Int64Range(0, l.Archives[a].Ret()-1).Draw(t, "oddAge"), V: F64(genValue(t))})
+				}
+				return C05Case{Kind: "oddfile", O: &od}
 			}
 			o := defaultLayoutOpts()
 			o.HugePct = 6 // archives of 3000-10000 slots, so that one batch can exceed any internal chunk size
